@@ -351,3 +351,18 @@ contract("gherkin.ast_builder.AstBuilder.reset",
              clause("no-comments", lambda self: len(self.comments) == 0, serves=["C15", "C03"]),
              clause("counter", lambda self: self.id_counter == 0, serves=["C15"]),
          ])
+
+record("SubDocument", fields=dict(Feature=ListOf("Feature")))
+klass("NodeDocument", of="AstNode", fields=dict(rule_type=Str, _sub_items="SubDocument"))
+
+# the document node: the feature (absent for a document without one -- omitted, not null) and the comments collected by
+# build() during this parse
+contract("gherkin.ast_builder.AstBuilder.transform_node#GherkinDocument",
+         dict_hint="GherkinDocument",
+         args=dict(self="AstBuilder", node=Val("NodeDocument")),
+         requires=[clause("kind", lambda node: node.rule_type == "GherkinDocument"),
+                   clause("at-most-one-feature", lambda node: len(node._sub_items["Feature"]) <= 1)],
+         returns="GherkinDocument", modifies=[],
+         result_is=lambda self, node: opt_key({"comments": self.comments}, "feature", len(node._sub_items["Feature"]) > 0,
+                                              node._sub_items["Feature"][0]),
+         serves=["C03", "C17", "C01"])
